@@ -113,6 +113,30 @@ def lacks_left_operand(text):
     return False
 
 
+def brackets_mismatched(text):
+    """a third necessary condition, independent of the parser: outside string literals every ')' closes a '(' and every '}' a
+    '{', properly nested, and nothing stays open"""
+    lacks_left_operand('=1')
+    t = text.lstrip()
+    if t.startswith('{=') and t.rstrip().endswith('}'):
+        t = t[2:].rstrip()[:-1]
+    elif t.startswith('='):
+        t = t[1:]
+    else:
+        return False
+    if '"' in _STRIP.sub('', t) or "'" in _STRIP.sub('', t):
+        return False
+    t = _STRIP.sub('s', t)
+    stack = []
+    for ch in t:
+        if ch in '({':
+            stack.append(ch)
+        elif ch in ')}':
+            if not stack or stack.pop() != {')': '(', '}': '{'}[ch]:
+                return True
+    return bool(stack)
+
+
 def operand_after_percent(text):
     """a second necessary condition: after a percent sign comes an operator, a closing parenthesis / brace, a separator or
     the end - never the start of an operand (two operands without an operator)"""
@@ -153,6 +177,8 @@ def check(run):
             run.violation('malformed input (%s) is accepted and read as %s' % (cls, r[1]), case)
         elif r[0] == 'ok' and lacks_left_operand(text):
             run.violation('malformed input (an operator without its left operand) is accepted and read as %s' % r[1], dict(case, **{'class': cls + '/missing-left-operand'}))
+        elif r[0] == 'ok' and brackets_mismatched(text):
+            run.violation('malformed input (parentheses / braces do not match) is accepted and read as %s' % r[1], dict(case, **{'class': cls + '/brackets'}))
         elif r[0] == 'ok' and operand_after_percent(text):
             run.violation('malformed input (an operand directly after a percent sign) is accepted and read as %s' % r[1], dict(case, **{'class': cls + '/operand-after-percent'}))
         try:
@@ -216,7 +242,8 @@ def check(run):
         elif cls == 'unbalanced-close':
             text = rnd.choice([good + ')', '(' + good + '))', a + ')+' + b])
         elif cls == 'unbalanced-brace':
-            text = rnd.choice(['{1,2', '1,2}', '{1;2', '{{1}', '{1}}', 'SUM({1,2)', 'SUM({1,2)}'])
+            text = rnd.choice(['{1,2', '1,2}', '{1;2', '{{1}', '{1}}', 'SUM({1,2)', 'SUM({1,2)}', '((' + a + '}', '((' + good + '}*' + b, 'SUM((' + a + ',' + b + '}',
+                               '(SUM(' + a + '}', '{((' + a + '}}', 'SUM(SUM(;}', '((' + a + ';}', '{' + a + '))', 'SUM(' + a + '}'])
         elif cls == 'missing-operand':
             op = rnd.choice(G.BINOPS)
             text = rnd.choice([good + op, op.replace('-', '*').replace('+', '/') + good, '(' + good + op + ')', a + op + op.replace('-', '*').replace('+', '*') + b,
